@@ -1,5 +1,5 @@
 """C15 — launch statistics list every launch/activity pair with exact durations and delay."""
-from harness.common import assume_distinct, assume_nested_or_disjoint, sand, snot
+from harness.common import precalls, assume_distinct, assume_nested_or_disjoint, sand, snot
 from symx import tracegen as TG
 from symx.engine import smax
 
@@ -38,6 +38,8 @@ def skeletons(tier):
                 for mem in (False, True):
                     out.append({"id": f"{w}-d{nd}-mem{int(mem)}", "host": w, "ndev": nd, "ranks": 1,
                                 "params": {"mem": mem, "dom": dom}})
+    for pre in ("queue", "idle", "temporal"):
+        out.append({"id": f"L-d1-after-{pre}", "host": "L", "ndev": 1, "ranks": 1, "params": {"mem": False, "dom": dom, "pre": [pre]}})
     # two ranks whose (symbolic) correlation ids may coincide: one rank's ids must not leak into the other's table
     for w, mem in ([("LY", False), ("Y", True)] if tier == "quick" else [("LY", True), ("LY", False), ("LL", True), ("YW", False)]):
         out.append({"id": f"r2-{w}-d2-mem{int(mem)}", "host": w, "ndev": 2, "ranks": 2, "params": {"mem": mem, "dom": 2}})
@@ -82,6 +84,7 @@ def run(ctx):
     ta = ctx.open(events)
     mem = ctx.params["mem"]
     ranks = list(ctx.params.get("order", range(sk["ranks"])))
+    precalls(ctx, ta)
     res = ta.get_cuda_kernel_launch_stats(ranks=ranks, include_memory_events=mem, visualize=False)
     ctx.prove(sorted(res.keys()) == sorted(ranks), "one-table-per-rank", {"ranks": sorted(res.keys())})
     anydelay = False
